@@ -375,7 +375,10 @@ func (c17) invalid(c *fw.Case, d *ptrDoc) {
 	var bad, class string
 	base := d.parentPtr + "/" + ptrEscape(d.lastKeyword)
 	enc := true
-	switch k := r.IntN(15); {
+	switch k := r.IntN(17); {
+	case k >= 15 && strings.HasPrefix(d.pointer, "/$defs/") && !hasKeyStr(d.root, "definitions"):
+		// the location exists under "$defs"; "definitions" is another keyword, which this document does not have
+		bad, class = "/definitions/"+strings.TrimPrefix(d.pointer, "/$defs/"), "other-definitions-keyword"
 	case k == 0 && d.lastKind == stepArray:
 		bad, class = base+"/"+fmt.Sprint(d.lastArrayLen), "index=len"
 	case k == 1 && d.lastKind == stepArray:
